@@ -132,6 +132,7 @@ func VerifC05_batch_e2e_type1() {
 	n := vSplit(vInt("n", 1, vBound("C05_e2e_batch", 2, 3)), 1, 3)
 	states := make([]type1.BasicPrivateTokenRequestState, n)
 	known := make([]bool, n)
+	malformed := make([]bool, n)
 	reqs := make([]tokens.TokenRequestWithDetails, n)
 	for i := 0; i < n; i++ {
 		keyID := issA.TokenKeyID()
@@ -145,12 +146,27 @@ func VerifC05_batch_e2e_type1() {
 		vAssume(err == nil)
 		states[i] = st
 		reqs[i] = st.Request()
+		if known[i] && vBool("malformed_element") {
+			// a request that is well formed on the wire but carries bytes that are no group element
+			// (0x05 is not a point-compression prefix): its own entry may fail, the batch may not
+			bad := make([]byte, type1.Ne)
+			bad[0] = 0x05
+			copy(bad[1:], vBytes("garbage", type1.Ne-1, type1.Ne-1))
+			reqs[i] = &type1.BasicPrivateTokenRequest{TokenKeyID: st.Request().TokenKeyID, BlindedReq: bad}
+			malformed[i] = true
+		}
 	}
 	br, err := NewBasicClient().CreateTokenRequest(reqs)
 	vAssume(err == nil)
 	wire := append([]byte{}, br.Marshal()...)
 	dec := &BatchedTokenRequest{}
-	vAssert(dec.Unmarshal(wire), "issuer-decodes-batch")
+	label := "issuer-decodes-batch"
+	for i := range malformed {
+		if malformed[i] {
+			label = "issuer-decodes-batch-with-a-malformed-element"
+		}
+	}
+	vAssert(dec.Unmarshal(wire), label)
 	out, err := issuer.EvaluateBatch(dec)
 	vAssert(err == nil, "evaluate-batch")
 	if err != nil {
@@ -163,7 +179,10 @@ func VerifC05_batch_e2e_type1() {
 	}
 	vAssert(len(resps) == n, "one-entry-per-request")
 	for i := 0; i < n && i < len(resps); i++ {
-		if known[i] {
+		if malformed[i] {
+			// present or absent is the inner issuer's business; the others are judged below
+			vReach("malformed")
+		} else if known[i] {
 			vAssert(len(resps[i]) > 0, "present-for-known-key")
 			tok, err := states[i].FinalizeToken(resps[i])
 			vAssert(err == nil, "entry-finalizes-under-its-own-state")
